@@ -349,7 +349,7 @@ def comparator_shard():
 
 def run(rep):
     quick = rep.tier == "quick"
-    T = 4 if quick else 5
+    T = 4 if quick else 6
     jobs = [(comparator_shard, ())]
     for cname in CLS:
         for hpi in (0, 1):
